@@ -465,7 +465,7 @@ pub fn dispatch_prop(toks: &[&str]) -> Option<String> {
 
 /// every public way of handing the same bytes to the full decoder gives the same `Beatmap`: the generic functions, the
 /// inherent `Beatmap::from_bytes` / `from_path` wrappers, `str::parse` (`FromStr`) and `Beatmap::decode` on a reader.
-fn entry_points(bytes: &[u8]) -> Option<String> {
+pub fn entry_points(bytes: &[u8]) -> Option<String> {
     use rosu_map::Beatmap;
     let want = rosu_map::from_bytes::<Beatmap>(bytes).ok();
     let mut got: Vec<(&str, Option<Beatmap>)> = vec![
